@@ -7,6 +7,7 @@ import (
 	"reflect"
 	"strings"
 	"sync"
+	"unicode/utf8"
 
 	"golang.org/x/text/encoding/simplifiedchinese"
 
@@ -196,9 +197,59 @@ func gbkEdgeRunes() []rune {
 	return gbkEdge
 }
 
+// gbkUTF8Pairs: two-character GBK texts whose four bytes  b0 b1 b2 b3  read as a UTF-8 three-byte sequence followed by an ASCII
+// byte (b0 in e0..ef, b1 b2 in 80..bf, b3 in 40..7e) — the byte-order mark ef bb bf among them. Followed by ASCII, the whole
+// GBK encoding is valid UTF-8: text that any "is this already UTF-8?" shortcut misreads.
+var (
+	gbkPairOnce sync.Once
+	gbkPairs    []string
+)
+
+func gbkUTF8Pairs() []string {
+	gbkPairOnce.Do(func() {
+		dec := simplifiedchinese.GBK.NewDecoder()
+		enc := simplifiedchinese.GBK.NewEncoder()
+		try := func(b []byte) {
+			if !utf8.Valid(b) {
+				return
+			}
+			u, err := dec.Bytes(b)
+			if err != nil || !utf8.Valid(u) || strings.ContainsRune(string(u), utf8.RuneError) {
+				return
+			}
+			back, err := enc.Bytes(u)
+			if err != nil || string(back) != string(b) {
+				return
+			}
+			gbkPairs = append(gbkPairs, string(u))
+		}
+		try([]byte{0xef, 0xbb, 0xbf, 0x41}) // the UTF-8 byte-order mark
+		try([]byte{0xef, 0xbb, 0xbf, 0x61})
+		for b0 := 0xe0; b0 <= 0xef; b0++ {
+			for _, b1 := range []int{0x80, 0x9f, 0xa0, 0xbb, 0xbf} {
+				for _, b2 := range []int{0x81, 0xa0, 0xbf} {
+					for _, b3 := range []int{0x40, 0x41, 0x7e} {
+						try([]byte{byte(b0), byte(b1), byte(b2), byte(b3)})
+					}
+				}
+			}
+		}
+	})
+	return gbkPairs
+}
+
 func (g G) GBK(maxRunes int) string {
 	rs := GBKRunes()
 	n := g.Intn(maxRunes + 1)
+	if n >= 2 && g.Chance(1, 12) {
+		if ps := gbkUTF8Pairs(); len(ps) > 0 {
+			out := []rune(ps[g.Intn(len(ps))])
+			for len(out) < n {
+				out = append(out, rs[g.Intn(95)])
+			}
+			return string(out)
+		}
+	}
 	if n > 0 && g.Chance(1, 5) {
 		// ASCII text with exactly one rune from the edges of the code space (alone, first, last or in the middle)
 		e := gbkEdgeRunes()
@@ -335,6 +386,35 @@ func ParamFieldIDs() map[uint32]string {
 }
 
 // Cases returns one in-domain value per two-way type/variant.
+// BigCases: in-domain values whose encoded body exceeds 65535 bytes (they reach a server as sub-packaged messages of up to
+// 255 x 1023 bytes): list counts are 16/32-bit fields, so tens of thousands of entries are representable. Offsets computed in
+// 16-bit arithmetic wrap at these sizes.
+func BigCases(g G) []TCase {
+	var out []TCase
+	for _, n := range []int{16382, 16383, 16384, 20000, 65000} {
+		t := &model.T0x0805{RespondSerialNumber: g.U16(), Result: g.U8(), MultimediaIDNumber: uint16(n)}
+		for i := 0; i < n; i++ {
+			t.MultimediaIDList = append(t.MultimediaIDList, g.U32())
+		}
+		out = append(out, TCase{Name: fmt.Sprintf("T0x0805/%d-ids", n), Type: "T0x0805", ID: 0x0805, Ver: V13, Val: t, Mk: func() TwoWay { return &model.T0x0805{} }})
+	}
+	for _, n := range []int{2184, 2185, 2400} {
+		t := &model.T0x0704{Num: uint16(n), LocationType: g.U8()}
+		for i := 0; i < n; i++ {
+			t.Items = append(t.Items, model.T0x0704LocationItem{Len: 28, T0x0200LocationItem: g.Loc()})
+		}
+		out = append(out, TCase{Name: fmt.Sprintf("T0x0704/%d-items", n), Type: "T0x0704", ID: 0x0704, Ver: V13, Val: t, Mk: func() TwoWay { return &model.T0x0704{} }})
+	}
+	for _, n := range []int{2340, 2341, 4000} {
+		t := &model.T0x1205{SerialNumber: g.U16(), AudioVideoResourceTotal: uint32(n)}
+		for i := 0; i < n; i++ {
+			t.AudioVideoResourceList = append(t.AudioVideoResourceList, model.T0x1205AudioVideoResource{ChannelNo: g.U8(), StartTime: g.TS(), EndTime: g.TS(), AlarmFlag: g.U64(), AudioVideoResourceType: g.U8(), StreamType: g.U8(), MemoryType: g.U8(), FileSizeByte: g.U32()})
+		}
+		out = append(out, TCase{Name: fmt.Sprintf("T0x1205/%d-resources", n), Type: "T0x1205", ID: 0x1205, Ver: V13, Val: t, Mk: func() TwoWay { return &model.T0x1205{} }})
+	}
+	return out
+}
+
 func Cases(g G) []TCase {
 	var out []TCase
 	add := func(name, typ string, id uint16, ver consts.ProtocolVersionType, v TwoWay, mk func() TwoWay) {
